@@ -274,7 +274,7 @@ def add (a b : Sequence) : Except Err Sequence := do
   let data1 : Dict Int Entry := a.data.map (fun (k, en) => (k, copyEntry en))
   let data := b.data.foldl (fun d (k, en) => Dict.upsert d (k + N) (copyEntry en)) data1
   let sq := b.sequencing.foldl (fun d (k, q) =>
-      Dict.upsert d (k + N) { q with goto := Gen.retarget q.goto N, jump_target := Gen.retarget q.jump_target N })
+      Dict.upsert d (k + N) { q with goto := Gen.retargetGoto q.goto N, jump_target := Gen.retargetJump q.jump_target N })
     a.sequencing
   pure { data := data, sequencing := sq, awgspecs := b.awgspecs, name := "" }
 
